@@ -494,16 +494,11 @@ def run(ctx):
         for c in cases[:3]:
             ctx.sample(" ; ".join(c[:25]))
         ok = run_cases(ctx, exe, cases, "random")
-    # 4. secondary: real threads (monitors only)
-    real_ok = True
-    if real is not None:
-        real_ok = run_real(ctx, real, rng.fork(), ctx.scale(6, 40), "real_asan")
-    if real_ok and real_tsan is not None:
-        real_ok = run_real(ctx, real_tsan, rng.fork(), ctx.scale(3, 20), "real_tsan")
-    # 5. search when a proof or the correspondence no longer checks (monitors only, enlarged budget)
-    if (ok is None or not lean_ok) and not ctx.violations:
+    # 4. search when a proof or the correspondence no longer checks (monitors only, enlarged budget, scheduled first)
+    need_search = (ok is None or not lean_ok) and not ctx.violations
+    found = False
+    if need_search:
         ctx.log("model/proof no longer matches: searching for a failing input with the monitors alone")
-        found = False
         srng = rng.fork()
         if exe is not None:
             for rnd in range(ctx.scale(8, 30)):
@@ -528,11 +523,19 @@ def run(ctx):
                         break
                 if found:
                     break
-        if not found:
+    # 5. secondary: real threads (monitors only)
+    real_ok = True
+    if real is not None and not ctx.violations:
+        real_ok = run_real(ctx, real, rng.fork(), ctx.scale(6, 40), "real_asan")
+    if real_ok and real_tsan is not None and not ctx.violations:
+        real_ok = run_real(ctx, real_tsan, rng.fork(), ctx.scale(3, 20), "real_tsan")
+    if need_search:
+        if not found and not ctx.violations:
             for x, lab in ((real_tsan, "search_tsan"), (real, "search_asan")):
                 if x is not None and not run_real(ctx, x, srng.fork(), ctx.scale(10, 40), lab, search=True):
                     found = True
                     break
+        found = found or bool(ctx.violations)
         ctx.notes["search"] = "monitors found a failing input" if found else \
             "enlarged monitor-only search (scheduled + real threads) found no failing input"
     ctx.cov["rule"] = ("schedules = action lists picked among the model's enabled actions (exhaustive: edge cover of the reachable "
